@@ -201,9 +201,15 @@ Proof. exact pnarop_l. Qed.
    the earlier draws since the seed), each embedded in place *)
 Theorem pseed_prand_draws : forall (rnd : oracle) k m sd l sv z (r : nat),
   den rnd k Str sd = ([sv], EStop) -> as_index sv = Some z -> l <> [] ->
-  (forall q, In q l -> snd (den rnd k Emb q) = EStop) -> (r < k)%nat -> rand_ok rnd l z r [] ->
-  den rnd (S k) m (PseedRand sd l (Fin (Z.of_nat r))) = (rand_out rnd (den rnd k Emb) l z r [], EStop).
+  (forall q, In q l -> snd (den rnd k Emb q) = EStop) -> (r < k)%nat -> rand_ok rnd 0 (Z.of_nat (length l)) l z r [] ->
+  den rnd (S k) m (PseedRand sd l (Fin (Z.of_nat r))) = (rand_out rnd (den rnd k Emb) 0 (Z.of_nat (length l)) l z r [], EStop).
 Proof. exact pseed_prand_l. Qed.
+(* Pwrand: the same with the weighted draw choices(range(nw), weights) (oracle key (-1, nw)) *)
+Theorem pseed_pwrand_draws : forall (rnd : oracle) k m sd l nw sv z (r : nat),
+  den rnd k Str sd = ([sv], EStop) -> as_index sv = Some z -> l <> [] ->
+  (forall q, In q l -> snd (den rnd k Emb q) = EStop) -> (r < k)%nat -> rand_ok rnd (-1) (Z.of_nat nw) l z r [] ->
+  den rnd (S k) m (PseedWrand sd l nw (Fin (Z.of_nat r))) = (rand_out rnd (den rnd k Emb) (-1) (Z.of_nat nw) l z r [], EStop).
+Proof. exact pseed_pwrand_l. Qed.
 (* Pxrand never yields the same item twice in a row (generator contract: 0 <= randrange(0, n) < n) *)
 Theorem pxrand_never_repeats : forall (rnd : oracle) l z h index q index' h',
   (2 <= length l)%nat -> (0 <= index < Z.of_nat (length l))%Z ->
@@ -288,6 +294,11 @@ Example ex_xrand_step : xrand_step (mk_rnd tblx) [i 10; i 20; i 30] 7 [(0, 3)%Z]
 Proof. vm_compute. reflexivity. Qed.
 Example ex_xrand : den (mk_rnd tblx) 30 Str (PseedXrand (Pseq [i 7] (Fin 1) 0) [i 10; i 20; i 30] (Fin 2)) =
   (map (fun z => VN (I z)) [20; 30]%Z, EStop).
+Proof. vm_compute. reflexivity. Qed.
+
+Definition tblw : list (Z * hist * Z * Z * Z) := [(7, [], -1, 3, 2); (7, [(-1, 3)], -1, 3, 0)]%Z.
+Example ex_wrand : den (mk_rnd tblw) 30 Str (PseedWrand (Pseq [i 7] (Fin 1) 0) [i 10; i 20; i 30] 3 (Fin 2)) =
+  (map (fun z => VN (I z)) [30; 10]%Z, EStop).
 Proof. vm_compute. reflexivity. Qed.
 
 Print Assumptions run_eq_den.
